@@ -40,6 +40,77 @@ type outcome struct {
 	NLines  int    `json:"nlines"`
 	LineLen int    `json:"linelen"`
 	Msg     string `json:"msg"`
+	// every location.Error of the chain, each against the file it names
+	Locs []locRec `json:"locs"`
+}
+
+// locRec is one position a diagnostic names: whether the named file belongs to the
+// document set, the extent of that file's line, and whether a node starts there.
+type locRec struct {
+	File      string `json:"file"`
+	Known     bool   `json:"known"`
+	Line      int    `json:"line"`
+	Col       int    `json:"col"`
+	NLines    int    `json:"nlines"`
+	LineLen   int    `json:"linelen"`
+	NodeStart bool   `json:"nodestart"`
+}
+
+func nodeStarts(data []byte) map[[2]int]bool {
+	out := map[[2]int]bool{}
+	var n yaml.Node
+	if yaml.Unmarshal(data, &n) != nil {
+		return nil
+	}
+	var walk func(*yaml.Node)
+	walk = func(n *yaml.Node) {
+		out[[2]int{n.Line, n.Column}] = true
+		for _, c := range n.Content {
+			walk(c)
+		}
+	}
+	walk(&n)
+	return out
+}
+
+// collectLocs walks the error chain.
+func collectLocs(err error, files map[string][]byte) (out []locRec) {
+	starts := map[string]map[[2]int]bool{}
+	for e := err; e != nil; e = errors.Unwrap(e) {
+		le, ok := e.(*location.Error)
+		if !ok || le.Pos.Line == 0 {
+			continue
+		}
+		rec := locRec{File: le.File.HumanName(), Line: le.Pos.Line, Col: le.Pos.Column}
+		var data []byte
+		if len(files) == 1 {
+			for _, d := range files {
+				data, rec.Known = d, true
+			}
+		} else {
+			for _, cand := range []string{le.File.Source, le.File.Name} {
+				if d, ok := files[filepath.Base(cand)]; ok && cand != "" {
+					data, rec.Known = d, true
+					break
+				}
+			}
+		}
+		if rec.Known {
+			lines := bytes.Split(data, []byte("\n"))
+			rec.NLines = len(lines)
+			if rec.Line >= 1 && rec.Line <= len(lines) {
+				rec.LineLen = len(lines[rec.Line-1])
+			}
+			key := string(data[:min(len(data), 64)]) + strconv.Itoa(len(data))
+			if starts[key] == nil {
+				starts[key] = nodeStarts(data)
+			}
+			// a document the YAML reader cannot parse has no nodes to compare with
+			rec.NodeStart = starts[key] == nil || starts[key][[2]int{rec.Line, rec.Col}]
+		}
+		out = append(out, rec)
+	}
+	return out
 }
 
 type memFS struct{}
@@ -47,22 +118,62 @@ type memFS struct{}
 func (memFS) WriteFile(string, []byte) error { return nil }
 
 // runOne is executed inside the worker process.
-func runOne(data []byte) (o outcome) {
+func runOne(data []byte) outcome {
+	return runDoc(data, map[string][]byte{"spec": data}, func(opts *gen.Options) {
+		opts.Parser.File = location.NewFile("spec", "spec", data)
+	})
+}
+
+// runMulti runs a document set: dir/root.(yml|json) referring to its sibling files.
+func runMulti(dir string) outcome {
+	files := map[string][]byte{}
+	ents, _ := os.ReadDir(dir)
+	root := ""
+	for _, e := range ents {
+		d, err := os.ReadFile(filepath.Join(dir, e.Name()))
+		if err != nil {
+			continue
+		}
+		files[e.Name()] = d
+		if strings.HasPrefix(e.Name(), "root.") {
+			root = e.Name()
+		}
+	}
+	if root == "" {
+		return outcome{Kind: "crash", Msg: "no root document in " + dir}
+	}
+	return runDoc(files[root], files, func(opts *gen.Options) {
+		if _, err := opts.Parser.SetLocation(filepath.Join(dir, root), gen.RemoteOptions{}); err != nil {
+			panic("harness: " + err.Error())
+		}
+		opts.Parser.AllowRemote = true
+	})
+}
+
+func runDoc(data []byte, files map[string][]byte, setup func(*gen.Options)) (o outcome) {
 	lines := bytes.Split(data, []byte("\n"))
 	o.NLines = len(lines)
 	defer func() {
 		if e := recover(); e != nil {
 			o.Kind, o.Msg = "panic", firstLine(fmt.Sprint(e))+" @ "+panicSite()
+			if os.Getenv("VERIF_STACK") != "" {
+				buf := make([]byte, 1<<18)
+				os.Stderr.Write(buf[:runtime.Stack(buf, false)])
+			}
 		}
-		if o.Located && o.Line >= 1 && o.Line <= len(lines) {
+		if o.Located && len(o.Locs) == 0 && o.Line >= 1 && o.Line <= len(lines) {
 			o.LineLen = len(lines[o.Line-1])
+		}
+		if o.Locs == nil {
+			o.Locs = []locRec{}
 		}
 	}()
 	fail := func(err error) outcome {
 		o.Kind, o.Msg = "err", firstLine(err.Error())
-		var le *location.Error
-		if errors.As(err, &le) && le.Pos.Line != 0 {
-			o.Located, o.Line, o.Col = true, le.Pos.Line, le.Pos.Column
+		o.Locs = collectLocs(err, files)
+		if len(o.Locs) > 0 {
+			o.Located, o.Line, o.Col = true, o.Locs[0].Line, o.Locs[0].Col
+			o.NLines, o.LineLen = o.Locs[0].NLines, o.Locs[0].LineLen
 			return o
 		}
 		var se *yaml.SyntaxError
@@ -76,7 +187,7 @@ func runOne(data []byte) (o outcome) {
 		return fail(err)
 	}
 	opts := gen.Options{}
-	opts.Parser.File = location.NewFile("spec", "spec", data)
+	setup(&opts)
 	opts.Generator.IgnoreNotImplemented = []string{"all"}
 	g, err := gen.NewGenerator(spec, opts)
 	if err != nil {
@@ -91,10 +202,18 @@ func runOne(data []byte) (o outcome) {
 
 // panicSite names the innermost ogen frame of the current panic.
 func panicSite() string {
-	buf := make([]byte, 1<<16)
+	buf := make([]byte, 1<<18)
 	buf = buf[:runtime.Stack(buf, false)]
 	lines := strings.Split(string(buf), "\n")
+	// deferred handlers that re-panic sit above the original panic: start below the last one
+	from := 0
 	for i, l := range lines {
+		if strings.HasPrefix(l, "panic(") || strings.HasPrefix(l, "runtime.sigpanic") || strings.HasPrefix(l, "runtime.goPanic") || strings.HasPrefix(l, "runtime.panic") {
+			from = i
+		}
+	}
+	for i := from; i < len(lines); i++ {
+		l := lines[i]
 		if strings.Contains(l, "github.com/ogen-go/ogen") && !strings.Contains(l, "verif/") && i+1 < len(lines) {
 			return strings.TrimSpace(l) + " " + strings.TrimSpace(lines[i+1])
 		}
@@ -109,13 +228,18 @@ func Worker(args []string) {
 	syscall.Setrlimit(syscall.RLIMIT_AS, &lim)
 	w := bufio.NewWriter(os.Stdout)
 	for _, f := range args {
-		data, err := os.ReadFile(f)
-		if err != nil {
-			fmt.Fprintln(w, `{"kind":"crash"}`)
-			w.Flush()
-			continue
+		var o outcome
+		if st, err := os.Stat(f); err == nil && st.IsDir() {
+			o = runMulti(f)
+		} else {
+			data, err := os.ReadFile(f)
+			if err != nil {
+				fmt.Fprintln(w, `{"kind":"crash"}`)
+				w.Flush()
+				continue
+			}
+			o = runOne(data)
 		}
-		o := runOne(data)
 		b, _ := json.Marshal(o)
 		w.Write(b)
 		w.WriteByte('\n')
@@ -293,7 +417,7 @@ func apply(op string, s site, root *yaml.Node) bool {
 			return false
 		}
 		k := *p.Content[s.idx-1]
-		k.Value += []string{"%zz", "%4", "%", "%41%", "%2f%4"}[len(k.Value)%5]
+		k.Value += []string{"%zz", "%4", "%", "%41%", "%2f%4", "%2f/x%", "%61%g0", "%7e%c"}[(len(k.Value)+len(s.path))%8]
 		p.Content[s.idx-1] = &k
 	case "dangling_ref":
 		if !isMap || p.Content[s.idx-1].Value != "$ref" {
@@ -326,13 +450,102 @@ func apply(op string, s site, root *yaml.Node) bool {
 			return false
 		}
 		set(deepNest(1000))
+	case "cyclic_oneof", "cyclic_anyof", "cyclic_allof", "cyclic_items", "cyclic_required", "cyclic_addl", "cyclic_pair":
+		// a schema position now refers to a component that contains itself
+		if !isMap || !(p.Content[s.idx-1].Value == "schema" || p.Content[s.idx-1].Value == "items" ||
+			strings.HasSuffix(s.path[:strings.LastIndex(s.path, "/")], "/components/schemas")) {
+			return false
+		}
+		self := refTo("VerifCyc")
+		str := mapping("type", scalar("!!str", "string"))
+		var body *yaml.Node
+		switch op {
+		case "cyclic_oneof":
+			body = mapping("oneOf", seq(self, str))
+		case "cyclic_anyof":
+			body = mapping("anyOf", seq(self, mapping("type", scalar("!!str", "integer"))))
+		case "cyclic_allof":
+			body = mapping("allOf", seq(self, mapping("type", scalar("!!str", "object"))))
+		case "cyclic_items":
+			body = mapping("type", scalar("!!str", "array"), "items", self)
+		case "cyclic_required":
+			body = mapping("type", scalar("!!str", "object"), "required", seq(scalar("!!str", "x")), "properties", mapping("x", self))
+		case "cyclic_addl":
+			body = mapping("type", scalar("!!str", "object"), "additionalProperties", self)
+		default:
+			body = refTo("VerifCyc2")
+			if !addSchema(root, "VerifCyc2", self) {
+				return false
+			}
+		}
+		if !addSchema(root, "VerifCyc", body) {
+			return false
+		}
+		set(refTo("VerifCyc"))
+	case "tuple_null", "tuple_scalar":
+		if !isMap || p.Content[s.idx-1].Value != "items" {
+			return false
+		}
+		if op == "tuple_null" {
+			set(seq(scalar("!!null", "null"), mapping("type", scalar("!!str", "string"))))
+		} else {
+			set(seq(mapping("type", scalar("!!str", "string")), scalar("!!int", "42")))
+		}
 	default:
 		return false
 	}
 	return true
 }
 
-var ops = []string{"delete", "retype_scalar", "retype_map", "retype_seq", "null", "break_escape", "dangling_ref", "cyclic_ref", "duplicate_key", "big_number", "negative_number", "nest_deep"}
+func mapping(kv ...any) *yaml.Node {
+	n := &yaml.Node{Kind: yaml.MappingNode, Tag: "!!map"}
+	for i := 0; i+1 < len(kv); i += 2 {
+		n.Content = append(n.Content, scalar("!!str", kv[i].(string)), kv[i+1].(*yaml.Node))
+	}
+	return n
+}
+
+func seq(items ...*yaml.Node) *yaml.Node {
+	return &yaml.Node{Kind: yaml.SequenceNode, Tag: "!!seq", Content: items}
+}
+
+func refTo(name string) *yaml.Node {
+	return mapping("$ref", scalar("!!str", "#/components/schemas/"+name))
+}
+
+func child(m *yaml.Node, key string, create bool) *yaml.Node {
+	if m == nil || m.Kind != yaml.MappingNode {
+		return nil
+	}
+	for i := 0; i+1 < len(m.Content); i += 2 {
+		if m.Content[i].Value == key {
+			return m.Content[i+1]
+		}
+	}
+	if !create {
+		return nil
+	}
+	c := mapping()
+	m.Content = append(m.Content, scalar("!!str", key), c)
+	return c
+}
+
+// addSchema adds components.schemas.<name> to the document.
+func addSchema(root *yaml.Node, name string, body *yaml.Node) bool {
+	doc := root
+	if doc.Kind == yaml.DocumentNode && len(doc.Content) == 1 {
+		doc = doc.Content[0]
+	}
+	schemas := child(child(doc, "components", true), "schemas", true)
+	if schemas == nil || schemas.Kind != yaml.MappingNode {
+		return false
+	}
+	schemas.Content = append(schemas.Content, scalar("!!str", name), body)
+	return true
+}
+
+var ops = []string{"delete", "retype_scalar", "retype_map", "retype_seq", "null", "break_escape", "dangling_ref", "cyclic_ref", "duplicate_key", "big_number", "negative_number", "nest_deep",
+	"cyclic_oneof", "cyclic_anyof", "cyclic_allof", "cyclic_items", "cyclic_required", "cyclic_addl", "cyclic_pair", "tuple_null", "tuple_scalar"}
 
 // toJSON spells a node tree as JSON text; ok=false when it has no JSON spelling.
 func toJSON(n *yaml.Node, b *strings.Builder, depth int) bool {
@@ -422,9 +635,9 @@ func corpusFiles() []string {
 
 // Check is the C11 entry point.
 func Check(r *core.Run) error {
-	r.SetRule("spec/GenOutcome.tla admits only ok / error as terminal outcomes (no Panic, Hang, StackOverflow or OutOfMemory transition exists), demands that a located diagnostic names a position inside the document, that the unmutated control documents are accepted, and that YAML and JSON spellings of the same data end alike. " +
-		"Fault enumeration: 12 structural operators (delete, retype to scalar/map/seq, null, broken escape in a path key, dangling $ref, self-referring component, duplicate key, out-of-range and negative numbers, 1000-deep nesting) are applied at eligible nodes of every small corpus document " +
-		"(quick: a seeded sample per operator and document; thorough: every eligible node), plus seeded byte-level mutations; each mutated document is spelled as YAML and, where expressible, JSON and run through ogen.Parse -> gen.NewGenerator -> WriteSource in a child process under a per-case watchdog and an address-space limit; TLC judges every case. " +
+	r.SetRule("spec/GenOutcome.tla admits only ok / error as terminal outcomes (no Panic, Hang, StackOverflow or OutOfMemory transition exists), demands that every position a diagnostic names is in a file of the document set, exists in it and is the start of one of its nodes, that the unmutated control documents are accepted, and that YAML and JSON spellings of the same data end alike. " +
+		"Fault enumeration: 21 structural operators (delete, retype to scalar/map/seq, null, broken escapes in a path key, dangling $ref, self-referring component, component containing itself through oneOf/anyOf/allOf/items/required property/additionalProperties/two-component ring placed at schema positions, tuple items with null/scalar element, duplicate key, out-of-range and negative numbers, 1000-deep nesting) are applied at eligible nodes of every small corpus document " +
+		"(quick: a seeded sample per operator and document; thorough: every eligible node), at every eligible node of a host document and of the referenced file of a two-file set (both tiers), plus seeded byte-level mutations; each mutated document is spelled as YAML and, where expressible, JSON and run through ogen.Parse -> gen.NewGenerator -> WriteSource in a child process under a per-case watchdog and an address-space limit; TLC judges every case. " +
 		"Non-trivial = the fault changed the outcome or produced a diagnostic; distinct = (operator, node kind, outcome class, located).")
 	perOp, nBytes := 3, 6
 	if r.Thorough() {
@@ -453,36 +666,15 @@ func Check(r *core.Run) error {
 		}
 		cases = append(cases, c)
 	}
-	files := corpusFiles()
-	r.Cov("corpus_documents", len(files))
 	nDeepDocs, maxDeepDocs := 0, 1
 	if r.Thorough() {
 		maxDeepDocs = 20
 	}
-	for _, f := range files {
-		data, err := os.ReadFile(f)
-		if err != nil {
-			continue
-		}
+	// enumerate applies every operator at up to perOp eligible nodes of the document
+	enumerate := func(name string, data []byte, perOp int, emit func(c fcase, root *yaml.Node) bool) {
 		var probe yaml.Node
 		if yaml.Unmarshal(data, &probe) != nil {
-			continue
-		}
-		// control: the unmutated document in both spellings
-		{
-			y, err := yaml.Marshal(&probe)
-			if err == nil {
-				var jb strings.Builder
-				var j []byte
-				if toJSON(&probe, &jb, 0) {
-					j = []byte(jb.String())
-				}
-				if runOne(y).Kind != "ok" {
-					r.CovAdd("corpus_documents_not_self_contained", 1)
-					continue // needs other files or is refused as is: not a valid starting point
-				}
-				add(fcase{spec: filepath.Base(f), op: "none", kind: "doc"}, y, j)
-			}
+			return
 		}
 		var sites []site
 		collect(&probe, "", &sites)
@@ -515,19 +707,52 @@ func Check(r *core.Run) error {
 				if si >= len(fresh) || !apply(op, fresh[si], &root) {
 					continue
 				}
-				y, err := yaml.Marshal(&root)
-				if err != nil {
-					continue
+				if emit(fcase{spec: name, op: op, kind: fresh[si].kind, path: fresh[si].path}, &root) {
+					applied++
 				}
-				var jb strings.Builder
-				var j []byte
-				if toJSON(&root, &jb, 0) {
-					j = []byte(jb.String())
-				}
-				add(fcase{spec: filepath.Base(f), op: op, kind: fresh[si].kind, path: fresh[si].path}, y, j)
-				applied++
 			}
 		}
+	}
+	files := corpusFiles()
+	r.Cov("corpus_documents", len(files))
+	for _, f := range files {
+		data, err := os.ReadFile(f)
+		if err != nil {
+			continue
+		}
+		var probe yaml.Node
+		if yaml.Unmarshal(data, &probe) != nil {
+			continue
+		}
+		// control: the unmutated document in both spellings
+		{
+			y, err := yaml.Marshal(&probe)
+			if err == nil {
+				var jb strings.Builder
+				var j []byte
+				if toJSON(&probe, &jb, 0) {
+					j = []byte(jb.String())
+				}
+				if runOne(y).Kind != "ok" {
+					r.CovAdd("corpus_documents_not_self_contained", 1)
+					continue // needs other files or is refused as is: not a valid starting point
+				}
+				add(fcase{spec: filepath.Base(f), op: "none", kind: "doc"}, y, j)
+			}
+		}
+		enumerate(filepath.Base(f), data, perOp, func(c fcase, root *yaml.Node) bool {
+			y, err := yaml.Marshal(root)
+			if err != nil {
+				return false
+			}
+			var jb strings.Builder
+			var j []byte
+			if toJSON(root, &jb, 0) {
+				j = []byte(jb.String())
+			}
+			add(c, y, j)
+			return true
+		})
 		for k := 0; k < nBytes; k++ {
 			b := append([]byte{}, data...)
 			for m := 0; m < 1+rng.IntN(3); m++ {
@@ -551,6 +776,81 @@ func Check(r *core.Run) error {
 			add(fcase{spec: filepath.Base(f), op: "bytes", kind: "doc"}, b, nil)
 		}
 	}
+	// the host documents: every operator at every eligible node, in both tiers
+	nCorpusCases := len(cases)
+	{
+		if o := runOne([]byte(hostAll)); o.Kind != "ok" {
+			return fmt.Errorf("%w: host document refused: %s", tlc.ErrInfra, o.Msg)
+		}
+		add(fcase{spec: "host-all", op: "none", kind: "doc"}, []byte(hostAll), nil)
+		nDeepDocs = maxDeepDocs - 1
+		enumerate("host-all", []byte(hostAll), 1<<30, func(c fcase, root *yaml.Node) bool {
+			y, err := yaml.Marshal(root)
+			if err != nil {
+				return false
+			}
+			var jb strings.Builder
+			var j []byte
+			if toJSON(root, &jb, 0) {
+				j = []byte(jb.String())
+			}
+			add(c, y, j)
+			return true
+		})
+		// the two-file set: faults are placed in ext, root stays as it is
+		var rootNode yaml.Node
+		if err := yaml.Unmarshal([]byte(strings.ReplaceAll(hostRoot, "ext.yml", "ext.json")), &rootNode); err != nil {
+			return err
+		}
+		var rj strings.Builder
+		if !toJSON(&rootNode, &rj, 0) {
+			return fmt.Errorf("%w: root host has no JSON spelling", tlc.ErrInfra)
+		}
+		addMulti := func(c fcase, extY, extJ []byte) {
+			n := len(cases)
+			c.yamlFile = filepath.Join(dir, fmt.Sprintf("m%d.y", n))
+			os.MkdirAll(c.yamlFile, 0o755)
+			os.WriteFile(filepath.Join(c.yamlFile, "root.yml"), []byte(hostRoot), 0o644)
+			os.WriteFile(filepath.Join(c.yamlFile, "ext.yml"), extY, 0o644)
+			if extJ != nil {
+				c.jsonFile = filepath.Join(dir, fmt.Sprintf("m%d.j", n))
+				os.MkdirAll(c.jsonFile, 0o755)
+				os.WriteFile(filepath.Join(c.jsonFile, "root.json"), []byte(rj.String()), 0o644)
+				os.WriteFile(filepath.Join(c.jsonFile, "ext.json"), extJ, 0o644)
+			}
+			cases = append(cases, c)
+		}
+		spell := func(root *yaml.Node) (y, j []byte, ok bool) {
+			y, err := yaml.Marshal(root)
+			if err != nil {
+				return nil, nil, false
+			}
+			var jb strings.Builder
+			if toJSON(root, &jb, 0) {
+				j = []byte(jb.String())
+			}
+			return y, j, true
+		}
+		var extNode yaml.Node
+		if err := yaml.Unmarshal([]byte(hostExt), &extNode); err != nil {
+			return err
+		}
+		y0, j0, _ := spell(&extNode)
+		addMulti(fcase{spec: "host-multi", op: "none", kind: "doc"}, y0, j0)
+		nDeepDocs = maxDeepDocs // no deep nesting here
+		enumerate("host-multi", []byte(hostExt), 1<<30, func(c fcase, root *yaml.Node) bool {
+			if strings.HasPrefix(c.path, "/x-pad") {
+				return false
+			}
+			y, j, ok := spell(root)
+			if !ok {
+				return false
+			}
+			addMulti(c, y, j)
+			return true
+		})
+	}
+	r.Cov("host_document_cases", len(cases)-nCorpusCases)
 	r.Cov("fault_cases", len(cases))
 	var yfiles, jfiles []string
 	var jIdx []int
@@ -610,11 +910,24 @@ func Check(r *core.Run) error {
 	}
 	var lines [][]byte
 	var desc []string
+	nLocs, nExtLocs := 0, 0
 	for i, c := range cases {
 		y := yo[i]
-		j := outcome{Kind: "na"}
+		j := outcome{Kind: "na", Locs: []locRec{}}
 		if jout[i] != nil {
 			j = *jout[i]
+		}
+		nLocs += len(y.Locs) + len(j.Locs)
+		for _, x := range append(append([]locRec{}, y.Locs...), j.Locs...) {
+			if strings.HasPrefix(x.File, "ext.") || strings.Contains(x.File, "/ext.") {
+				nExtLocs++
+			}
+		}
+		if y.Locs == nil {
+			y.Locs = []locRec{}
+		}
+		if j.Locs == nil {
+			j.Locs = []locRec{}
 		}
 		b, _ := json.Marshal(map[string]any{"op": c.op, "node": c.kind, "y": y, "j": j, "hasJson": jout[i] != nil})
 		lines = append(lines, b)
@@ -626,6 +939,8 @@ func Check(r *core.Run) error {
 			r.Sample(desc[len(desc)-1])
 		}
 	}
+	r.Cov("diagnostic_positions_judged", nLocs)
+	r.Cov("diagnostic_positions_in_referenced_file", nExtLocs)
 	r.AddEvals(int64(len(yfiles) + len(jfiles)))
 	r.AddTraces(int64(len(cases)))
 	vs, err := obs.Check(r, lines, obs.CheckOpts{Module: "GenOutcomeCheck", Cfg: obs.StdCfg("KnownDeviations = " + r.KnownSet()), ChunkSize: 8000})
@@ -644,7 +959,17 @@ func Check(r *core.Run) error {
 		c := cases[v.Index]
 		keep := filepath.Join(core.VerifDir, "evidence", "replays", fmt.Sprintf("C11-case-%d.yml", v.Index))
 		os.MkdirAll(filepath.Dir(keep), 0o755)
-		if data, err := os.ReadFile(c.yamlFile); err == nil && r.NumViolations() < 20 {
+		if st, err := os.Stat(c.yamlFile); err == nil && st.IsDir() && r.NumViolations() < 20 {
+			// a document set: keep the directory
+			keep = strings.TrimSuffix(keep, ".yml")
+			os.MkdirAll(keep, 0o755)
+			ents, _ := os.ReadDir(c.yamlFile)
+			for _, e := range ents {
+				if data, err := os.ReadFile(filepath.Join(c.yamlFile, e.Name())); err == nil {
+					os.WriteFile(filepath.Join(keep, e.Name()), data, 0o644)
+				}
+			}
+		} else if data, err := os.ReadFile(c.yamlFile); err == nil && r.NumViolations() < 20 {
 			os.WriteFile(keep, data, 0o644)
 		}
 		r.Violate(desc[v.Index]+": "+v.Kind, map[string]any{"spec": c.spec, "op": c.op, "path": c.path, "document": keep})
@@ -678,11 +1003,14 @@ func Replay(r *core.Run, path string) error {
 	}
 	r.SetRule("replay of one stored document")
 	o := runBatch([]string{f.Case.Document}, 60*time.Second)[0]
+	if o.Locs == nil {
+		o.Locs = []locRec{}
+	}
 	r.AddEvals(1)
 	r.Sample(o)
 	r.Nontrivial("replay|" + o.Kind)
 	r.Nontrivial("replay")
-	line, _ := json.Marshal(map[string]any{"op": "bytes", "node": "doc", "y": o, "j": outcome{Kind: "na"}, "hasJson": false})
+	line, _ := json.Marshal(map[string]any{"op": "bytes", "node": "doc", "y": o, "j": outcome{Kind: "na", Locs: []locRec{}}, "hasJson": false})
 	vs, err := obs.Check(r, [][]byte{line}, obs.CheckOpts{Module: "GenOutcomeCheck", Cfg: obs.StdCfg("KnownDeviations = " + r.KnownSet())})
 	if err != nil {
 		return err
